@@ -27,12 +27,15 @@ class JsonToken(str):
         return s
 
 
-def _snapshot(o):
-    """copy of the JSON-able structure that keeps symbolic leaves as they are"""
+def _snapshot(o, sort=False):
+    """copy of the JSON-able structure that keeps symbolic leaves as they are (sort: json.dumps(sort_keys=True))"""
     if isinstance(o, dict):
-        return {k: _snapshot(v) for k, v in o.items()}
+        items = list(o.items())
+        if sort:
+            items = sorted(items, key=lambda kv: kv[0])
+        return {k: _snapshot(v, sort) for k, v in items}
     if isinstance(o, (list, tuple)):
-        return [_snapshot(v) for v in o]
+        return [_snapshot(v, sort) for v in o]
     return o
 
 
@@ -47,7 +50,7 @@ class FakeJson:
     def dumps(self, obj, **kw):
         if obj is None or obj is True or obj is False:
             return _real_json.dumps(obj)        # scalars keep their real text (code compares it with 'null')
-        t = JsonToken(_snapshot(obj), kw)
+        t = JsonToken(_snapshot(obj, bool(kw.get("sort_keys"))), kw)
         self.dumped.append(t)
         return t
 
@@ -97,6 +100,11 @@ import posixpath as _pp
 
 class FaultInjected(OSError):
     pass
+
+
+class WorldUnsupported(BaseException):
+    """the code under test used an OS interface the in-memory world does not model: the harness cannot decide
+    (BaseException: neither the code under test nor a harness turns it into a verdict; the runner reports a harness error)"""
 
 
 class World:
@@ -318,7 +326,41 @@ class FakeOs:
         self.w.removed.append(p)
 
     def listdir(self, p):
-        return [n for n, _ in self.w.files]
+        if p.rstrip("/") == self.w.path.rstrip("/"):
+            return list(self.w.subdirs.keys()) + [n for n, _ in self.w.files]
+        for sd, entries in self.w.subdirs.items():
+            if p.rstrip("/") == _pp.join(self.w.path, sd):
+                return [n for n, _ in entries]
+        raise FileNotFoundError(2, "No such file or directory", p)
+
+    def scandir(self, p="."):
+        w = self.w
+
+        class _Entry:
+            def __init__(self, d, name, isdir, data):
+                self.name, self.path, self._d, self._data = name, _pp.join(d, name), isdir, data
+
+            def is_dir(self, follow_symlinks=True):
+                return self._d
+
+            def is_file(self, follow_symlinks=True):
+                return not self._d and self._data is not None
+
+        class _It(list):
+            def __enter__(self):
+                return self
+
+            def __exit__(self, *a):
+                return False
+
+            def close(self):
+                pass
+        if p.rstrip("/") == w.path.rstrip("/"):
+            return _It([_Entry(p, sd, True, None) for sd in w.subdirs] + [_Entry(p, n, False, d) for n, d in w.files])
+        for sd, entries in w.subdirs.items():
+            if p.rstrip("/") == _pp.join(w.path, sd):
+                return _It([_Entry(p, n, False, d) for n, d in entries])
+        raise FileNotFoundError(2, "No such file or directory", p)
 
     # low-level descriptor calls: recorded, harmless (a tool may re-point its stdout, e.g. to /dev/null)
     def open(self, path, flags=0, *a, **k):
@@ -354,7 +396,7 @@ class FakeOs:
         import os as _os
         v = getattr(_os, name)
         if callable(v) and not isinstance(v, type):
-            raise AttributeError("os.%s is not available in the in-memory world" % name)
+            raise WorldUnsupported("os.%s is not available in the in-memory world" % name)
         return v          # constants such as os.devnull, os.O_WRONLY, os.sep
 
 
@@ -366,6 +408,8 @@ def make_open(world):
             return _WFile(world, path)
         data = world._lookup(path)
         if data is None:
+            if path in world.dirs or path.rstrip("/") in world.dirs:
+                raise IsADirectoryError(21, "Is a directory", path)
             raise FileNotFoundError(2, "No such file or directory", path)
         return _RFile(data, "b" not in mode)
     return fake_open
@@ -374,7 +418,9 @@ def make_open(world):
 def make_print(world, fsys):
     def fake_print(*a, **k):
         f = k.get("file")
-        chan = "stderr" if f is fsys.stderr else "stdout"
+        chan = "stderr" if (f is fsys.stderr and f is not None) else "stdout"
+        if chan == "stdout" and f is None and fsys.stdout is None:
+            return                          # print() with sys.stdout None (fd 1 closed at start-up) discards the text
         if chan == "stdout":
             world._step("print")
         obj = a[0] if len(a) == 1 else a
@@ -429,6 +475,8 @@ def run_main(peltool, world, ns, fj=None, in_bmc=False, diag_modules=()):
     import contextlib
     fj = fj or FakeJson()
     fsys = FakeSys(world, ["peltool.py"])
+    if getattr(world, "no_stdout", False):
+        fsys.stdout = None                  # the process was started with file descriptor 1 closed
     fos = FakeOs(world)
     if in_bmc:
         world.dirs.add("/var/lib/phosphor-logging/extensions/pels/logs/")
@@ -569,4 +617,6 @@ class FakeImporter:
             return real                 # a shipped module that is itself part of the code under test
         if not self.present(name):
             raise ModuleNotFoundError("No module named %r" % (name,))
+        if getattr(self, "import_raises", None) is not None:
+            raise self.import_raises            # a module that exists but fails while it is being imported
         return FixtureModule(self, name)
